@@ -1,4 +1,9 @@
 import Abyss.Props.C13
+import Abyss.Props.GenCorollaries
+#print axioms Abyss.C13_generated_wrong_type
+#print axioms Abyss.C13_generated_mutation
+#print axioms Abyss.C13_generated_collision
+#print axioms Abyss.openMap_existing
 #print axioms Abyss.C13_types_distinct
 #print axioms Abyss.C13_collision
 #print axioms Abyss.C13_full_statement_refuted
